@@ -17,7 +17,7 @@ RULE = ("case = program assembled from data blocks: DIM (1-3 dimensions, decimal
         "stores to and read-back of all corner elements; implicit arrays; READ into scalar/element/string targets from DATA "
         "lines with quoted, unquoted (inner/trailing blanks), numeric, hex and empty items, before and after the READ, RESTORE "
         "mid-way; PRINT lists over arrangements of ; , and juxtaposition with leading/trailing separators, PRINT@, TAB; INPUT / "
-        "LINE INPUT with/without prompt and 1-3 targets; string functions on boundary arguments; x string storage {32,80} x "
+        "LINE INPUT with/without prompt and 1-3 targets; string functions on boundary arguments; x string storage {32,33,64,80,255} (values as long as the configured size in every kind of string variable) x "
         "initialize_vars; distinct = structural key of the program; non-trivial = source ran without error and traces compared")
 ASSUMPTIONS = ["BASIC09: base 0 + DIM a(n) gives 0..n-1; READ needs datum and target of the same class; undeclared names are REAL / STRING[32]",
                "printed numbers are compared by value; PRINT separators as tokens (zone, tab, newline)"]
@@ -201,7 +201,7 @@ class DataGen(object):
     def block_strfn(self):
         r = self.r
         long_ok = self.storage != 32
-        s = r.choice(["", "A", "HELLO", "AB CD"] + (["ABCDEFGHIJKLMNOPQRSTUVWXYZ0123456789+-", "0" * 33 + "12"] if long_ok else []))
+        s = r.choice(["", "A", "HELLO", "AB CD"] + [x for x in ("ABCDEFGHIJKLMNOPQRSTUVWXYZ0123456789+-", "0" * 33 + "12") if long_ok and len(x) + 3 <= self.storage])
         self.add(("let", ("var", "W$"), ("str", s), False))
         L = len(s)
         W = ("var", "W$")
@@ -224,6 +224,40 @@ class DataGen(object):
         if r.random() < 0.5:
             self.add(("let", ("var", "V$"), ("bin", "+", ("fn", "LEFT$", [W, n(2)]), ("fn", "RIGHT$", [W, n(1)])), False), P(self.tag(), ";", ("var", "V$")))
 
+    def block_capacity(self):
+        """A non-default string size must hold for every kind of string variable: scalars, DIMmed and implicit array
+        elements, READ / INPUT targets, concatenation results.  Values are exactly as long as the configured size."""
+        r = self.r
+        if self.storage == 32:
+            return self.block_strfn()
+        size = min(self.storage, 120)
+        long1 = ("<" + "abcdefghij" * 13)[:size - 1] + ">"
+        half = size // 2
+        lit = ("str", long1)
+        pick = r.random()
+        if pick < 0.3:
+            tg = ("var", r.choice(["C1$", "C2$"]))
+        elif pick < 0.65:
+            tg = ("arr", r.choice(["IM$", "IN$"]), [n(r.choice([0, 3, 10]))])        # never DIMensioned
+        else:
+            if not any(d[0] == "DC$" for d in self.dims_line):
+                self.dims_line.append(("DC$", [4], ["4"]))
+            tg = ("arr", "DC$", [n(r.choice([0, 2, 4]))])
+        how = r.random()
+        if how < 0.4:
+            self.add(("let", tg, lit, False))
+        elif how < 0.6:
+            self.add(("let", tg, ("bin", "+", ("str", long1[:half]), ("str", long1[half:])), False))
+        elif how < 0.8:
+            self.data_lines.append([("data", [("q", long1)])]) if False else None
+            self.add(("let", ("var", "W$"), ("str", long1[:half]), False), ("let", tg, ("bin", "+", ("var", "W$"), ("str", long1[half:])), False))
+        else:
+            self.add(("let", tg, ("fn", "STRING$", [n(size), ("str", "#")]), False))
+            long1 = "#" * size
+        self.add(P(self.tag(), ";", ("fn", "LEN", [tg]), ";", ("fn", "RIGHT$", [tg, n(2)]), ";", ("fn", "MID$", [tg, n(32), n(3)])))
+        if r.random() < 0.5:
+            self.add(("let", ("var", "V$"), tg, False), P(self.tag(), ";", ("fn", "LEN", [("var", "V$")]), ";", ("fn", "INSTR", [n(30), ("var", "V$"), ("str", long1[-2:])])))
+
     def block_uninit(self):
         # reads of never-assigned variables / elements: 0 and "" in Color BASIC
         r = self.r
@@ -234,7 +268,7 @@ class DataGen(object):
         r = self.r
         self.uses_g = False
         self.add(("let", ("var", "A"), n(r.randint(0, 5)), False), ("let", ("var", "A$"), ("str", r.choice(["Q", "HI", ""])), False))
-        kinds = ["array", "data", "print", "input", "strfn", "uninit"]
+        kinds = ["array", "data", "print", "input", "strfn", "uninit", "capacity"]
         for _ in range(nblocks):
             k = r.choice(kinds)
             if k == "array" and not (self.arr_names and self.sarr_names):
@@ -333,11 +367,16 @@ def dim_everything(prog, mode="all"):
     used = {}
     targets_only = set()
     assigned = set()
+    elsewhere = set()      # arrays that also occur outside READ/INPUT target position: the tool sees those uses
     for ln, s in progtools.all_stmts(prog):
         for role, e in progtools.stmt_exprs(s):
+            top = [e, role == "target" and s[0] in ("read", "input")]
+
             def visit(x):
                 if x[0] == "arr":
                     used[canon(x[1])] = max(used.get(canon(x[1]), 0), len(x[2]))
+                    if not (x is top[0] and top[1]):
+                        elsewhere.add(canon(x[1]))
                     for a in x[2]:
                         visit(a)
                 elif x[0] in ("bin",):
@@ -363,7 +402,9 @@ def dim_everything(prog, mode="all"):
         extra = [x for x in extra if len(x[1]) > 1]
         pre = []
     elif mode == "targets":
-        extra = [x for x in extra if len(x[1]) == 1]
+        extra = [x for x in extra if len(x[1]) == 1 and x[0] not in elsewhere]
+    else:
+        extra = [x for x in extra if len(x[1]) > 1 or x[0] not in elsewhere]
     out = []
     done = False
     for ln, st in prog:
@@ -447,4 +488,4 @@ def run_case(case):
 def cases(tier, seed):
     N = 1500 if tier == "quick" else 250000
     for i in range(N):
-        yield {"seed": seed * 104723 + i, "nblocks": 1 + i % 4, "storage": 32 if i % 3 else 80, "init": i % 4 != 3, "sample": i % 500 == 0}
+        yield {"seed": seed * 104723 + i, "nblocks": 1 + i % 4, "storage": 32 if i % 3 else [80, 80, 33, 255, 64][(i // 3) % 5], "init": i % 4 != 3, "sample": i % 500 == 0}
